@@ -129,6 +129,8 @@ pub struct Outcome {
     pub assumptions: Vec<String>,
     /// classes that must have been hit at least once, otherwise the run is invalid (exit 2)
     pub essential: Vec<String>,
+    /// classes that must never be hit (harness self-checks), otherwise the run is invalid (exit 2)
+    pub forbidden: Vec<String>,
     pub shards: usize,
     pub extra: BTreeMap<String, Value>,
 }
@@ -141,6 +143,7 @@ impl Outcome {
             rule: rule.to_string(),
             assumptions: vec![],
             essential: vec![],
+            forbidden: vec![],
             shards: 1,
             extra: BTreeMap::new(),
         }
@@ -191,7 +194,7 @@ impl TapeCfg {
             cases_per_shard: total.div_ceil(shards as u32),
             tape_min: 0,
             tape_max,
-            shrink_iters: 3000,
+            shrink_iters: 20000,
         }
     }
 }
@@ -377,7 +380,7 @@ pub fn is_known(findings: &[Finding], property: &str, signature: &str) -> bool {
 // Evidence and replay files
 
 pub fn write_evidence(ctx: &Ctx, out: &Outcome, wall_s: f64, violations: u64, regression: (u64, u64)) -> std::io::Result<()> {
-    let dir = ctx.verif_dir.join("evidence");
+    let dir = out_dir(ctx).join("evidence");
     std::fs::create_dir_all(&dir)?;
     let mut coverage = serde_json::Map::new();
     coverage.insert("evaluations".into(), json!(out.stats.evaluations));
@@ -411,8 +414,13 @@ pub fn write_evidence(ctx: &Ctx, out: &Outcome, wall_s: f64, violations: u64, re
     std::fs::write(dir.join(format!("{}.json", ctx.id)), serde_json::to_string_pretty(&ev).unwrap() + "\n")
 }
 
+/// Where evidence and newly found replays go: /verif, or $LC3V_OUT_DIR for sensitivity runs.
+pub fn out_dir(ctx: &Ctx) -> PathBuf {
+    std::env::var("LC3V_OUT_DIR").map(PathBuf::from).unwrap_or_else(|_| ctx.verif_dir.clone())
+}
+
 pub fn write_replay(ctx: &Ctx, f: &Failure) -> PathBuf {
-    let dir = ctx.verif_dir.join("replays").join(ctx.id);
+    let dir = out_dir(ctx).join("replays").join(ctx.id);
     let _ = std::fs::create_dir_all(&dir);
     let h = fxhash(&f.case.to_string());
     let path = dir.join(format!("found-{}-{:08x}.json", ctx.seed, h as u32));
